@@ -30,8 +30,10 @@ structure TI (Lm tt rt : Nat) (s : NetState) : Prop where
   feat : s.node.rf.features &&& 4 ≠ 0
   txs : TxS s.drv
   msg : s.node.frameBuf.message.length ≤ Lm
-  rx : ∀ e ∈ s.rxq, RxOk e.data
-  arr : ∀ a ∈ s.node.arrivals, RxOk a.2.2
+  /-- RX FIFO entries: 0..32 bytes (a 0-byte entry makes `read()` return `None` without removing it) -/
+  rx : ∀ e ∈ s.rxq, e.data = [] ∨ RxOk e.data
+  /-- scripted arrivals: 0..32 bytes (a 0-byte arrival is refused by the model's radio, `World.inject_nil`) -/
+  arr : ∀ a ∈ s.node.arrivals, a.2.2 = [] ∨ RxOk a.2.2
   tab : ∀ p ∈ s.node.dhcp, p.1 < 32768 ∧ p.2 < 32768
 
 /-- time does not run backwards, the measure does not grow -/
@@ -241,6 +243,43 @@ theorem injects_rx (l : List (Nat × Nat × Bytes)) (j : Nat) (w : World) :
         · exact ⟨a, List.mem_cons_self .., rfl⟩
         · obtain ⟨x, hx, hd⟩ := h3 e he; exact ⟨x, List.mem_cons_of_mem _ hx, hd⟩
 
+/-- the model's radio refuses a 0-byte payload: with dynamic payloads the length must be 1..32, with
+    static payloads it must equal RX_PW_Px and be non-zero -/
+theorem World.inject_nil (w : World) (j p : Nat) : w.inject j p [] = w := by
+  unfold World.inject
+  simp
+
+/-- `injects_rx`, and what is appended has at least one byte -/
+theorem injects_rx_ne (l : List (Nat × Nat × Bytes)) (j : Nat) (w : World) :
+    ∃ add : List RxEntry, ((l.foldl (fun w a => w.inject j a.2.1 a.2.2) w).radio j).rxFifo = (w.radio j).rxFifo ++ add ∧
+      add.length ≤ l.length ∧ (∀ e ∈ add, ∃ a ∈ l, e.data = a.2.2) ∧ ∀ e ∈ add, e.data ≠ [] := by
+  induction l generalizing w with
+  | nil => exact ⟨[], by simp, Nat.le_refl _, (fun _ h => by cases h), (fun _ h => by cases h)⟩
+  | cons a l ih =>
+    obtain ⟨add, h1, h2, h3, h4⟩ := ih (w.inject j a.2.1 a.2.2)
+    by_cases hnil : a.2.2 = []
+    · refine ⟨add, ?_, by simp; omega, ?_, h4⟩
+      · rw [List.foldl_cons, h1, hnil, World.inject_nil]
+      · intro e he; obtain ⟨x, hx, hd⟩ := h3 e he; exact ⟨x, List.mem_cons_of_mem _ hx, hd⟩
+    · obtain ⟨add1, g1, g2, g3⟩ := injects_rx [a] j w
+      have g1' : ((w.inject j a.2.1 a.2.2).radio j).rxFifo = (w.radio j).rxFifo ++ add1 := g1
+      refine ⟨add1 ++ add, ?_, ?_, ?_, ?_⟩
+      · rw [List.foldl_cons, h1, g1', List.append_assoc]
+      · have g2' : add1.length ≤ 1 := g2
+        simp only [List.length_append, List.length_cons]; omega
+      · intro e he
+        rcases List.mem_append.1 he with he | he
+        · obtain ⟨x, hx, hd⟩ := g3 e he
+          simp only [List.mem_singleton] at hx
+          exact ⟨a, List.mem_cons_self .., hx ▸ hd⟩
+        · obtain ⟨x, hx, hd⟩ := h3 e he; exact ⟨x, List.mem_cons_of_mem _ hx, hd⟩
+      · intro e he
+        rcases List.mem_append.1 he with he | he
+        · obtain ⟨x, hx, hd⟩ := g3 e he
+          simp only [List.mem_singleton] at hx
+          rw [hd, hx]; exact hnil
+        · exact h4 e he
+
 theorem injects_txs (l : List (Nat × Nat × Bytes)) (j : Nat) (ds : DrvState) (h : TxS ds) :
     TxS { ds with w := l.foldl (fun w a => w.inject j a.2.1 a.2.2) ds.w } := by
   induction l generalizing ds with
@@ -253,7 +292,7 @@ theorem TI.due (h : TI Lm tt rt s) : TI Lm tt rt (afterDue s) ∧ NP s (afterDue
   have hn : (afterDue s).node
       = { s.node with arrivals := s.node.arrivals.dropWhile (fun a => decide (a.1 ≤ s.w.clock)) } :=
     NetState.node_setNode ({ s with w := dueWorld s }) _ h.cur
-  obtain ⟨add, h1, h2, h3⟩ := injects_rx (s.node.arrivals.takeWhile (fun a => decide (a.1 ≤ s.w.clock)))
+  obtain ⟨add, h1, h2, h3, h4⟩ := injects_rx_ne (s.node.arrivals.takeWhile (fun a => decide (a.1 ≤ s.w.clock)))
     s.node.rf.rid s.w
   have hrx : (afterDue s).rxq = s.rxq ++ add := by
     unfold NetState.rxq
@@ -297,8 +336,9 @@ theorem TI.due (h : TI Lm tt rt s) : TI Lm tt rt (afterDue s) ∧ NP s (afterDue
           rcases List.mem_append.1 he with he | he
           · exact h.rx e he
           · obtain ⟨a, ha, hd⟩ := h3 e he
-            rw [hd]
-            exact h.arr a (mem_of_takeWhile ha)
+            rcases h.arr a (mem_of_takeWhile ha) with h0 | hok
+            · exact absurd (hd.trans h0) (h4 e he)
+            · rw [hd]; exact Or.inr hok
         arr := by
           rw [hn]
           intro a ha
